@@ -470,5 +470,9 @@ func (m *w2mon) onGKCall(d *gkDeco, what string) {
 	}
 	if v, ok := d.n.recovering.Load(d.source); ok && v.(bool) {
 		s.violate("C15", "request-processed-during-recovery", "%s reached the staging area of %s while start-up recovery of that source had not finished", what, d.source)
+	} else if p := d.n.pending.pendingFor(d.n.stageDir(), d.source); p != "" {
+		// the receiver says recovery is complete, but a file that recovery found
+		// completely received has not been validated again yet
+		s.violate("C15", "request-processed-during-recovery", "%s reached the staging area of %s although start-up recovery has not yet validated %s, which it found completely received", what, d.source, s.rel(p))
 	}
 }
